@@ -28,6 +28,7 @@ def run(rep, tier):
     landing.r_land_remainder(rep, f)
     landing.r_land_cover(rep, f)
     landing.r_land_stretch(rep, f)
+    landing.r_land_stretch_sem(rep, f)
     landing.r_crange_all(rep, f)
     limits.r_hinit_clamp(rep, f)
     limits.r_first_sign_solvers(rep, f)
